@@ -176,6 +176,25 @@ func (t treeSpec) build(s *store.Store, seed *int) (*builtTree, error) {
 			return nil, err
 		}
 		return &builtTree{Kind: t.Kind, Cid: c, Size: sz, Content: content}, nil
+	case "fE":
+		// the classic encoding of an empty file: a dag-pb UnixFS File node with
+		// neither Data field nor links (what other writers store for it)
+		blk := model.EncodePB(&model.PBNode{Data: []byte{0x08, 0x02, 0x18, 0x00}, HasData: true})
+		c, _ := gen.V1PB.Sum(blk)
+		s.Put(c, blk)
+		return &builtTree{Kind: "fE", Cid: c, Size: uint64(len(blk)), Content: []byte{}}, nil
+	case "fH1":
+		// a hand-written file whose root has exactly one link (to an interior node)
+		spec, ok := gen.HandByLabel("hand 1x2 leaves=raw blocksizes=all filesize=true")
+		if !ok {
+			return nil, fmt.Errorf("hand-written DAG family changed")
+		}
+		c, content := spec.Build(s)
+		sz, err := model.TreeSum(s, c)
+		if err != nil {
+			return nil, err
+		}
+		return &builtTree{Kind: "fH1", Cid: c, Size: sz, Content: content}, nil
 	case "fL":
 		// a hand-written file whose root under-declares the middle child's size
 		// (link Tsize 1): the file's bytes are still the concatenation of its leaves
@@ -347,6 +366,9 @@ func pathTrees(quick bool) []treeSpec {
 		treeSpec{Kind: "hamt", Children: []treeSpec{m(f1, f1, f1), f1, f1}},
 		treeSpec{Kind: "fL"},
 		treeSpec{Kind: "dir", Children: []treeSpec{{Kind: "fL"}, f1}},
-		treeSpec{Kind: "hamt", Children: []treeSpec{f1, {Kind: "fL"}, fN}})
+		treeSpec{Kind: "hamt", Children: []treeSpec{f1, {Kind: "fL"}, fN}},
+		treeSpec{Kind: "fE"}, treeSpec{Kind: "fH1"},
+		treeSpec{Kind: "dir", Children: []treeSpec{{Kind: "fE"}, {Kind: "fH1"}, f1}},
+		treeSpec{Kind: "hamt", Children: []treeSpec{{Kind: "fH1"}, {Kind: "fE"}, f1, f1}})
 	return ts
 }
